@@ -25,7 +25,8 @@ where
     let count = self.count;
 
     Observable::<Item>::create(move |s| {
-      let n = Arc::new(RwLock::new(0));
+      // (items seen, accepted items still being delivered downstream)
+      let n = Arc::new(RwLock::new((0usize, 0usize)));
 
       let sctl = StreamController::new(s);
       let sctl_next = sctl.clone();
@@ -34,15 +35,27 @@ where
 
       source.inner_subscribe(sctl.new_observer(
         move |serial, x| {
-          let (emit, complete) = {
+          let emit = {
             let mut n = n.write().unwrap();
-            let nn = *n;
-            *n += 1;
-            (nn < count, (nn + 1) >= count)
+            let emit = n.0 < count;
+            n.0 += 1;
+            if emit {
+              n.1 += 1;
+            }
+            emit
           };
           if emit {
             sctl_next.sink_next(x);
           }
+          // complete only once every accepted item has been delivered, so that
+          // a concurrent emission cannot overtake an item that is in flight
+          let complete = {
+            let mut n = n.write().unwrap();
+            if emit {
+              n.1 -= 1;
+            }
+            n.0 >= count && n.1 == 0
+          };
           if complete {
             sctl_next.upstream_abort_observe(&serial);
             sctl_next.sink_complete(&serial);
